@@ -137,11 +137,18 @@ def explore(mod_name, inst_name, jobs=16, max_paths=2_000_000, max_wall=3600, po
                 for v in r["violations"]:
                     n = roles.get(v["role"], 0)
                     roles[v["role"]] = n + 1
-                    if n < 3:
+                    if n < 2:
                         agg["violations"].append(v)
                 agg["inconclusive"].extend(r["inconclusive"])
                 pending.extend(r["leftover"])
             if agg["inconclusive"]:
+                break
+            if sum(roles.values()) >= 40:
+                # plenty of counterexamples already: the verdict cannot become a pass; stop exploring (reported as not exhaustive)
+                agg["notes"]["stopped_early"] = "exploration stopped after 40 counterexamples"
+                for fut in list(running):
+                    fut.cancel()
+                pending = []
                 break
             if agg["paths"] > max_paths or time.time() - t0 > max_wall:
                 agg["inconclusive"].append(f"exploration budget exceeded ({agg['paths']} paths, {time.time()-t0:.0f}s, {len(pending)} prefixes left)")
